@@ -319,9 +319,14 @@ class GeneralDataType(AbstractDataType):
                 self._encoding[ambiguity] = self.codes[ambiguities[ambiguity]]
 
     def encoding(self, string: str) -> int:
+        # a state written with several characters arrives split into its characters
+        if not isinstance(string, str):
+            string = ''.join(string)
         return self._encoding.get(string, self.state_count)
 
     def partial(self, string: str, use_ambiguities=True) -> tuple[float, ...]:
+        if not isinstance(string, str):
+            string = ''.join(string)
         if string in self.codes and (use_ambiguities or string in self._encoding):
             p = np.zeros(self.state_count)
             p[self.codes[string]] = 1.0
